@@ -189,22 +189,49 @@ def _gather(ck, repo, nf):
         mi = fn._module
         cfg = nf.cfg_of(fn)
         site = f"{cq}.sample_batch"
-        gathers = [n for n in ast.walk(fn) if isinstance(n, ast.Subscript) and isinstance(n.value, ast.Subscript) and dotted(n.value.value) == "self.buffer" and isinstance(getattr(n, "ctx", None), ast.Load)]
-        ck.need(gathers, f"{site}: no gather `self.buffer[k][indices]` found (unrecognised idiom)")
-        idx_exprs = {ast.dump(g.slice): g.slice for g in gathers}
-        # the gather must range over all fields: inside a comprehension / loop over self.buffer
-        comps = [n for n in ast.walk(fn) if isinstance(n, (ast.DictComp, ast.ListComp, ast.GeneratorExp)) and any(g2 in list(ast.walk(n)) for g2 in gathers)]
-        def _over_buffer(it):
-            return dotted(it) == "self.buffer" or (isinstance(it, ast.Call) and isinstance(it.func, ast.Attribute) and it.func.attr in ("keys", "items") and dotted(it.func.value) == "self.buffer" and not it.args)
-        over_all = any(_over_buffer(c.generators[0].iter) for c in comps)
-        ck.need(over_all, f"{site}: the gather does not iterate over self.buffer (unrecognised idiom)")
+        from ..sem import field_gathers, storage_rebindings
+        fg = field_gathers(fn)
+        ck.need(fg, f"{site}: no per-field gather `self.buffer[k][indices]` inside an iteration over self.buffer found (unrecognised idiom)")
+        gathers = [g_["sub"] for g_ in fg]
+        idx_exprs = {ast.dump(g_["index"]): g_["index"] for g_ in fg}
+        loop_vars = set().union(*[g_["vars"] for g_ in fg])
         one = len(idx_exprs) == 1
         ix = next(iter(idx_exprs.values()))
         fresh = any(isinstance(x, ast.Call) for x in ast.walk(ix))
-        key_dep = any(isinstance(x, ast.Name) and any(x.id == c.generators[0].target.id for c in comps if isinstance(c.generators[0].target, ast.Name)) for x in ast.walk(ix))
+        key_dep = any(isinstance(x, ast.Name) and x.id in loop_vars for x in ast.walk(ix))
         ok = one and not fresh and not key_dep
         ck.ob("R2-one-index-vector", site, "same-index-for-all-fields", ok, f"fields gathered at {[short(v, 40) for v in idx_exprs.values()]}",
               "" if ok else "every field of a batch row must be read with the same, once-drawn index vector: an index computed per field (fresh draw / field-dependent) mixes transitions", loc(mi, ix))
+        # how does a gathered column meet its field of the Batch?
+        pairings = {g_["pairing"] for g_ in fg}
+        if None in pairings:
+            raise AnalysisError(f"{site}: how the gathered columns are paired with the fields of the batch is not recognised")
+        if "position" in pairings:
+            # positional: column order == iteration order of self.buffer; the Batch type was derived from the dict's keys when the object was
+            # built, so the dict must never be replaced by one with another key order
+            reb = storage_rebindings(repo, cq)
+            bad_reb = []
+            for mq_, st_ in reb:
+                v_ = st_.value
+                keeps = any(isinstance(c_, (ast.DictComp, ast.GeneratorExp, ast.ListComp)) and any(dotted(g2.iter) == "self.buffer" or (isinstance(g2.iter, ast.Call) and isinstance(g2.iter.func, ast.Attribute) and dotted(g2.iter.func.value) == "self.buffer") for g2 in c_.generators) for c_ in ast.walk(v_))
+                if not keeps:
+                    bad_reb.append((mq_, st_))
+            okp = not bad_reb
+            if bad_reb:
+                # where do the new dict's keys come from?  (a local filled in a loop over something else than self.buffer)
+                mq_, st_ = bad_reb[0]
+                src_ = None
+                if isinstance(st_.value, ast.Name):
+                    mfn = repo.method(mq_.rsplit(".", 1)[0], mq_.rsplit(".", 1)[1], inherited=False)
+                    for lp in ast.walk(mfn[1]) if mfn else []:
+                        if isinstance(lp, ast.For) and any(isinstance(a_, ast.Assign) and isinstance(a_.targets[0], ast.Subscript) and dotted(a_.targets[0].value) == st_.value.id for a_ in ast.walk(lp)):
+                            src_ = lp.iter
+                if src_ is None or "self.buffer" in ast.unparse(src_):
+                    raise AnalysisError(f"{site}: the batch is built positionally and `{short(st_, 60)}` replaces the storage dict - whether the key order is kept is not decided")
+                ck.ob("R2-one-index-vector", site, "columns-meet-their-fields", False, f"positional batch `{short(fg[0]['owner'], 50)}`; `{short(st_, 50)}` in {mq_.rsplit('.', 1)[1]} rebuilds the dict in the order of `{short(src_, 30)}`",
+                      "the batch fields are filled by position in the iteration order of self.buffer, but the storage dict is re-created with the key order of the first added sample's keywords: with another keyword order every field of a sampled row carries another field's data", loc(mi, fg[0]["owner"]))
+            else:
+                ck.ob("R2-one-index-vector", site, "columns-meet-their-fields", True, "positional batch; the storage dict is never replaced after construction (key order == Batch field order)", "", loc(mi, fg[0]["owner"]))
         if not ok or not isinstance(ix, ast.Name):
             if ok:
                 raise AnalysisError(f"{site}: index expression `{short(ix)}` is not a variable (unrecognised idiom)")
@@ -458,6 +485,7 @@ def run(ck, repo: Repo, tier: str):
 _F = "rl_blox/blox/replay_buffer.py"
 _RING = "        for k, v in sample.items():\n            self.buffer[k][self.insert_idx] = v\n        self.insert_idx = (self.insert_idx + 1) % self.buffer_size\n        self.current_len = min(self.current_len + 1, self.buffer_size)\n\n    def sample_batch(\n        self, batch_size: int, rng: np.random.Generator\n    ) -> tuple[jnp.ndarray]:"
 MUTANTS = [
+    {"id": "c02-positional-batch-storage-rebuilt", "file": _F, "rule": "R2", "edits": [("        indices = rng.integers(0, self.current_len, batch_size)\n        return self.Batch(\n            **{k: jnp.asarray(self.buffer[k][indices]) for k in self.buffer}\n        )", "        indices = rng.integers(0, self.current_len, batch_size)\n        return self.Batch(\n            *(jnp.asarray(v[indices]) for v in self.buffer.values())\n        )"), ("        if self.current_len == 0:\n            for k, v in sample.items():\n                assert k in self.buffer, f\"{k} not in {self.buffer.keys()}\"\n                self.buffer[k] = np.empty(\n                    (self.buffer_size,) + np.asarray(v).shape,\n                    dtype=self.buffer[k].dtype,\n                )\n        for k, v in sample.items():\n            self.buffer[k][self.insert_idx] = v\n        self.insert_idx =", "        if self.current_len == 0:\n            storage = OrderedDict()\n            for k, v in sample.items():\n                storage[k] = np.empty(\n                    (self.buffer_size,) + np.asarray(v).shape,\n                    dtype=self.buffer[k].dtype,\n                )\n            self.buffer = storage\n        for k, v in sample.items():\n            self.buffer[k][self.insert_idx] = v\n        self.insert_idx =")]},
     {"id": "c02-integers-low-one", "file": _F, "rule": "R3", "find": "        indices = rng.integers(0, self.current_len, batch_size)", "replace": "        indices = rng.integers(1, self.current_len, batch_size)"},
     {"id": "c02-mt-shared-buffers", "file": _F, "rule": "R5", "find": "            self.buffers.append(copy.deepcopy(replay_buffer))", "replace": "            self.buffers.append(replay_buffer)"},
     {"id": "c02-mt-add-to-first", "file": _F, "rule": "R5", "find": "        self.buffers[self.selected_task].add_sample(*args, **kwargs)", "replace": "        self.buffers[0].add_sample(*args, **kwargs)"},
@@ -482,6 +510,7 @@ MUTANTS = [
 ]
 _ALLOC = "        if self.current_len == 0:\n            for k, v in sample.items():\n                assert k in self.buffer, f\"{k} not in {self.buffer.keys()}\"\n                self.buffer[k] = np.empty(\n                    (self.buffer_size,) + np.asarray(v).shape,\n                    dtype=self.buffer[k].dtype,\n                )\n        for k, v in sample.items():\n            self.buffer[k][self.insert_idx] = v\n        self.insert_idx = (self.insert_idx + 1) % self.buffer_size\n        self.current_len = min(self.current_len + 1, self.buffer_size)\n\n    def sample_batch(\n        self, batch_size: int, rng: np.random.Generator\n    ) -> tuple[jnp.ndarray]:"
 BENIGN = [
+    {"id": "c02-b-positional-batch", "file": _F, "find": "        indices = rng.integers(0, self.current_len, batch_size)\n        return self.Batch(\n            **{k: jnp.asarray(self.buffer[k][indices]) for k in self.buffer}\n        )", "replace": "        indices = rng.integers(0, self.current_len, batch_size)\n        return self.Batch(\n            *(jnp.asarray(v[indices]) for v in self.buffer.values())\n        )"},
     {"id": "c02-b-lap-init-after", "file": _F, "find": "        self.priority.initialize_priority(self.insert_idx)\n        super().add_sample(**sample)", "replace": "        slot = self.insert_idx\n        super().add_sample(**sample)\n        self.priority.initialize_priority(slot)"},
     {"id": "c02-b-integers-keywords", "file": _F, "find": "        indices = rng.integers(0, self.current_len, batch_size)", "replace": "        indices = rng.integers(low=0, high=len(self), size=batch_size)"},
     {"id": "c02-b-integers-high-only", "file": _F, "find": "        indices = rng.integers(0, self.current_len, batch_size)", "replace": "        indices = rng.integers(self.current_len, size=batch_size)"},
